@@ -321,6 +321,43 @@ func StringWithParenthesis(expr Expression) string {
 	return strings.Repeat("(", n) + s + strings.Repeat(")", n)
 }
 
+// operandString returns the string representation of expr used as operand of
+// an operator, surrounding it by parentheses if it is a default expression,
+// because a default expression extends as far to the right as possible.
+func operandString(expr Expression) string {
+	if _, ok := expr.(*Default); ok {
+		return "(" + expr.String() + ")"
+	}
+	return expr.String()
+}
+
+// primaryString returns the string representation of expr used as operand of
+// an index, slicing, type assertion or call expression, surrounding it by
+// parentheses if it is an operator or a default expression.
+func primaryString(expr Expression) string {
+	switch expr.(type) {
+	case *UnaryOperator, *BinaryOperator, *Default:
+		return "(" + expr.String() + ")"
+	}
+	return expr.String()
+}
+
+// endsWithFuncOrChanType reports whether the string representation of the
+// type expression expr ends with a function or channel type.
+func endsWithFuncOrChanType(expr Expression) bool {
+	switch e := expr.(type) {
+	case *FuncType, *ChanType:
+		return true
+	case *MapType:
+		return endsWithFuncOrChanType(e.ValueType)
+	case *SliceType:
+		return endsWithFuncOrChanType(e.ElementType)
+	case *ArrayType:
+		return endsWithFuncOrChanType(e.ElementType)
+	}
+	return false
+}
+
 // Cut indicates, in a [Text] node, how many bytes should be cut from the left
 // and the right of the text before rendering the [Text] node.
 type Cut struct {
@@ -457,13 +494,13 @@ func (n *BinaryOperator) String() string {
 	if e, ok := n.Expr1.(Operator); ok && e.Precedence() <= n.Precedence() {
 		s += "(" + n.Expr1.String() + ")"
 	} else {
-		s += n.Expr1.String()
+		s += operandString(n.Expr1)
 	}
 	s += " " + n.Op.String() + " "
 	if e, ok := n.Expr2.(Operator); ok && e.Precedence() <= n.Precedence() {
 		s += "(" + n.Expr2.String() + ")"
 	} else {
-		s += n.Expr2.String()
+		s += operandString(n.Expr2)
 	}
 	return s
 }
@@ -542,17 +579,10 @@ func NewCall(pos *Position, fun Expression, args []Expression, isVariadic bool) 
 
 // String returns the string representation of n.
 func (n *Call) String() string {
-	s := n.Func.String()
-	switch fn := n.Func.(type) {
-	case *UnaryOperator:
-		if fn.Op == OperatorPointer || fn.Op == OperatorReceive {
-			s = "(" + s + ")"
-		}
-	case *FuncType:
-		if len(fn.Result) == 0 {
-			s = "(" + s + ")"
-		}
-	case *ChanType:
+	s := primaryString(n.Func)
+	if endsWithFuncOrChanType(n.Func) {
+		// "func()(x)", "chan int(x)" and "map[K]func()(x)" would be read
+		// as types whose result or element is "(x)" or "int(x)".
 		s = "(" + s + ")"
 	}
 	s += "("
@@ -1032,7 +1062,7 @@ func NewIndex(pos *Position, expr Expression, index Expression) *Index {
 
 // String returns the string representation of n.
 func (n *Index) String() string {
-	return n.Expr.String() + "[" + n.Index.String() + "]"
+	return primaryString(n.Expr) + "[" + n.Index.String() + "]"
 }
 
 // Interface node represents an interface type.
@@ -1254,7 +1284,12 @@ func NewSelector(pos *Position, expr Expression, ident string) *Selector {
 
 // String returns the string representation of n.
 func (n *Selector) String() string {
-	return n.Expr.String() + "." + n.Ident
+	// A unary operand is printed without parentheses ("*p.f" for "(*p).f"):
+	// messages of the type checker rely on this form.
+	if _, ok := n.Expr.(*UnaryOperator); ok {
+		return n.Expr.String() + "." + n.Ident
+	}
+	return primaryString(n.Expr) + "." + n.Ident
 }
 
 // Send node represents a "send" statement.
@@ -1335,7 +1370,7 @@ func NewSlicing(pos *Position, expr, low, high Expression, max Expression, isFul
 
 // String returns the string representation of n.
 func (n *Slicing) String() string {
-	s := n.Expr.String() + "["
+	s := primaryString(n.Expr) + "["
 	if n.Low != nil {
 		s += n.Low.String()
 	}
@@ -1343,8 +1378,10 @@ func (n *Slicing) String() string {
 	if n.High != nil {
 		s += n.High.String()
 	}
-	if n.Max != nil {
+	if n.IsFull || n.Max != nil {
 		s += ":"
+	}
+	if n.Max != nil {
 		s += n.Max.String()
 	}
 	s += "]"
@@ -1460,9 +1497,9 @@ func NewTypeAssertion(pos *Position, expr Expression, typ Expression) *TypeAsser
 // String returns the string representation of n.
 func (n *TypeAssertion) String() string {
 	if n.Type == nil {
-		return n.Expr.String() + ".(type)"
+		return primaryString(n.Expr) + ".(type)"
 	}
-	return n.Expr.String() + ".(" + n.Type.String() + ")"
+	return primaryString(n.Expr) + ".(" + n.Type.String() + ")"
 }
 
 // TypeDeclaration node represents a type declaration, that is an alias
@@ -1523,7 +1560,7 @@ func (n *UnaryOperator) String() string {
 	if e, ok := n.Expr.(Operator); ok && (n.Op == OperatorReceive || e.Precedence() <= n.Precedence()) {
 		s += "(" + n.Expr.String() + ")"
 	} else {
-		s += n.Expr.String()
+		s += operandString(n.Expr)
 	}
 	return s
 }
